@@ -37,7 +37,7 @@ CHECKS = {
    note="Operations through the root node() entry point are excluded (mis-planned, see C01 findings). One Query call = one HTTP call at batch size 3000.",
    ref="DESIGN.md §6 C12"),
  "C07": dict(engine="enum", cat="exploration",
-   technique="exhaustive enumeration of request grammars (all byte strings up to a length over a JSON-structure alphabet, all JSON trees up to a node count, content types, multipart layouts over a path alphabet, valid operations on corner-case schemas) against the real handler in crash-isolating worker processes with a three-valued status reference",
+   technique="exhaustive enumeration of request grammars (all byte strings up to a length over a JSON-structure alphabet, all JSON trees up to a node count, content types, multipart layouts over a path alphabet, valid operations on corner-case schemas) against the real handler in crash-isolating worker processes with a three-valued status reference; plus a race complement pass (client batches, also through the caching planner with entries expiring between rounds, free-running in a -race build: a data race on the request path is a crash waiting for its schedule and is reported as a violation)",
    text="Every body in the enumerated grammars must be answered (no panic: a worker death is attributed to the request in flight), with JSON carrying data and/or errors, with status 422 exactly when the request cannot be decoded and 200 when it is a standard well-formed shape (grey zone: either), and the gateway must still answer a canonical follow-up request correctly.",
    note="Trusted: the three-valued reference classifier in harness/a/c07.go; bounds: length<=5 (6 thorough) over an 11-symbol alphabet, JSON trees <=5 (6) nodes, maps with <=2 files x <=2 paths over 18 paths.",
    ref="DESIGN.md §6 C07"),
@@ -83,12 +83,12 @@ CHECKS = {
    ref="DESIGN.md §6 C16"),
  "C08": dict(engine="sched", cat="model_checking",
    technique="stateless model checking of the implementation: preemption-bounded exhaustive DFS (state-cached) over the schedules of the rewritten Gateway.Handler processing a client batch, at two granularities (operation subtrees as threads; every goroutine); plus a race complement pass that guards the exploration's data-race-freedom assumption (client batches and upload batches free-running in a -race build of the Engine A worker; a data race in the code under test is reported as a violation)",
-   text="Every batch of length 0..3 over a 10-operation pool (queries on both services, cross-service, a mutation, introspection, an invalid operation, service errors, a transport fault): every schedule within the bound (operation-grained: PB<=1 for length<=2, PB 0 for length 3 quick; fine-grained PB<=1 on selected batches) must yield an array of N results with result i equal to the answer operation i receives alone, and no deadlock/fatal/leak.",
+   text="Every batch of length 0..3 over a 10-operation pool (queries on both services, cross-service, a mutation, introspection, an invalid operation, service errors, a transport fault): every schedule within the bound (operation-grained: PB<=1 for length<=2, PB 0 for length 3 quick; fine-grained PB<=1 on selected batches) must yield an array of N results with result i equal to the answer operation i receives alone, and no deadlock/fatal/leak; the same over a second pool of 6 operations (variables with defaults and no variables object - also held to the reference model's answer -, gateway-answered root fields next to failing service fields).",
    note="Trusted: vrewrite/vrt; the operation-grained mode fixes the default order inside one operation's goroutine subtree; schedules beyond the bound are not covered.",
    ref="DESIGN.md §6 C08"),
  "C13": dict(engine="sched", cat="model_checking",
    technique="stateless model checking of the implementation with map iteration order as an enumerated choice: deviation-bounded exhaustive DFS (state-cached) where a deviation is a preemption or a non-default order at one of the rewritten range-over-map sites",
-   text="For each of ~320 (quick) operations every execution of the real handler with at most one deviation (thorough two) is run; the set of outcomes (data, set of errors, per-service multiset of sub-requests) must be a singleton.",
+   text="For each of ~320 (quick) operations every execution of the real handler with at most one deviation (thorough two) is run; the set of outcomes (data, set of errors, per-service multiset of sub-requests) must be a singleton; multipart operations whose upload variable is consumed by two services likewise (step-grained); two clients sending an operation each at the same time (default and custom queryer factory) must each receive the answer the operation gets alone.",
    note="Map iteration inside dependencies is not enumerated; bounded number of simultaneous deviations.",
    ref="DESIGN.md §6 C13"),
  "C14": dict(engine="sched", cat="model_checking",
